@@ -47,6 +47,8 @@ func (e Entry) String() string {
 		return fmt.Sprintf("%s[%s seq=%d T=%d]", e.Kind, e.MsgType, e.Seq, e.NextTarget)
 	case "timer":
 		return fmt.Sprintf("timer[%s %v]", e.Timer, e.Dur)
+	case "store.Save", "store.IncrSender":
+		return fmt.Sprintf("%s(%d)", e.Kind, e.Seq)
 	case "store.Reset", "store.SetNextTarget", "store.SetNextSender":
 		return fmt.Sprintf("%s(%d<-%d)", e.Kind, e.Value, e.Prev)
 	}
@@ -78,6 +80,8 @@ type Rig struct {
 	FromAppErr   func(m *quickfix.Message) quickfix.MessageRejectError
 	FromAdminErr func(m *quickfix.Message) quickfix.MessageRejectError
 	InCallback   func(kind string) // hook for schedule perturbation (C02)
+	EditAdmin    func(m *quickfix.Message) // the application edits an outgoing administrative message in ToAdmin
+	RecordSaves  bool                      // trace every completed outbound save ("store.Save") / number increment ("store.IncrSender")
 
 	// timers as last armed (virtual clock support)
 	Armed map[string]time.Duration
@@ -157,11 +161,23 @@ func (s *recStore) SaveMessageAndIncrNextSenderMsgSeqNum(seq int, msg []byte) er
 	if s.r.StorePause != nil {
 		s.r.StorePause()
 	}
+	if err == nil && s.r.RecordSaves {
+		s.r.add(Entry{Kind: "store.Save", Seq: seq, Raw: append([]byte(nil), msg...)})
+	}
 	if err == nil && s.r.ExternalDrain {
 		st := s.r.nextStamp()
 		s.r.mu.Lock()
 		s.r.Saves = append(s.r.Saves, Stamped{Stamp: st, Seq: seq, Bytes: append([]byte(nil), msg...)})
 		s.r.mu.Unlock()
+	}
+	return err
+}
+
+func (s *recStore) IncrNextSenderMsgSeqNum() error {
+	prev := s.MessageStore.NextSenderMsgSeqNum()
+	err := s.MessageStore.IncrNextSenderMsgSeqNum()
+	if err == nil && s.r.RecordSaves {
+		s.r.add(Entry{Kind: "store.IncrSender", Seq: prev})
 	}
 	return err
 }
@@ -245,6 +261,9 @@ func (a app) OnLogon(quickfix.SessionID)  { a.r.add(a.cb("OnLogon", nil)) }
 func (a app) OnLogout(quickfix.SessionID) { a.r.add(a.cb("OnLogout", nil)) }
 func (a app) ToAdmin(m *quickfix.Message, _ quickfix.SessionID) {
 	a.r.add(a.cb("ToAdmin", m))
+	if a.r.EditAdmin != nil {
+		a.r.EditAdmin(m)
+	}
 	if a.r.InCallback != nil {
 		a.r.InCallback("ToAdmin")
 	}
